@@ -48,13 +48,18 @@ def enumerate_cases(tier, d):
     cases = []
     states = trans = 0
     # two exhaustive configurations: wide (every fault incl. host x expression, shallow) and deep (named faults, nested)
-    for cfg in (("Diag_quick.cfg", "Diag_quick_deep.cfg") if tier == "quick" else ("Diag_thorough.cfg", "Diag_thorough_deep.cfg")):
+    for cfg in (("Diag_quick.cfg", "Diag_quick_deep.cfg") if tier == "quick" else ("Diag_thorough.cfg", "Diag_thorough_deep.cfg", "Diag_thorough_mods.cfg")):
         res = run_tlc("Diag.tla", cfg, os.path.join(d, "tlc_diag"), timeout=3000)
         if res.timed_out or not res.ok:
             raise ToolError("TLC failed enumerating Diag.tla (%s):\n%s" % (cfg, res.violation))
         cases += [json.loads(ln[5:]) for ln in res.printed if ln.startswith("CASE ")]
         states += res.distinct
         trans += res.generated
+    if len(cases) > 400000:
+        # the exhaustive configurations of the thorough tier are sampled down when the product grows beyond what can be run
+        rnd = random.Random(seed())
+        rnd.shuffle(cases)
+        cases = cases[:400000]
     num = 1500 if tier == "quick" else 40000
     sim = run_tlc("Diag.tla", "Diag_sim.cfg", os.path.join(d, "tlc_diag_sim"), timeout=3000, workers=4,
                   simulate="num=%d" % num, extra=["-depth", "8", "-seed", str(seed())])
